@@ -44,7 +44,7 @@ EPS = 2.0 ** -52
 PI = math.pi
 GUARD = 1e-3           # |D| >= GUARD * sum|a|
 CONTAINERS = ("scalar", "list", "tuple", "deque", "set", "stream",
-              "streamcyc", "gen")
+              "streamcyc", "gen", "map", "filter")
 LEAF_CTORS = ("Z", "L", "dict", "zexpr")
 
 
@@ -475,6 +475,10 @@ def run_resp(ctx, case):
     arg = Stream(*ws)
   elif cont == "gen":
     arg = counting_gen(ws, counter)
+  elif cont == "map":          # the other lazy iterables of the standard
+    arg = map(lambda w: w, counting_gen(ws, counter))       # library
+  elif cont == "filter":
+    arg = filter(lambda w: True, counting_gen(ws, counter))
   else:
     raise ValueError(cont)
 
@@ -489,7 +493,8 @@ def run_resp(ctx, case):
   # --- kind of the returned container ---------------------------------------
   want_type = {"list": list, "tuple": tuple, "deque": collections.deque,
                "set": set, "stream": Stream, "streamcyc": Stream,
-               "gen": types.GeneratorType}[cont]
+               "gen": types.GeneratorType, "map": types.GeneratorType,
+               "filter": types.GeneratorType}[cont]
   exact_type = cont in ("list", "tuple", "deque", "set")
   if (type(got) is not want_type) if exact_type else \
      (not isinstance(got, want_type)):
@@ -497,7 +502,7 @@ def run_resp(ctx, case):
                     "streamcyc", "stream"), case,
                   got_type=type(got).__name__, want_type=want_type.__name__)
     return True
-  if cont == "gen":
+  if cont in ("gen", "map", "filter"):
     if counter[0] != 0:
       ctx.violation("container/generator-consumed-before-iteration", case,
                     pulls=counter[0])
